@@ -14,6 +14,7 @@
 //   --mode astable
 //        Property::as<T> against an explicit table of literals.
 #include "vfh.h"
+#include <algorithm>
 #include <csignal>
 #include <fstream>
 #include <votca/tools/optionshandler.h>
@@ -108,8 +109,24 @@ static int mode_merge(const vfh::Args &A) {
     R.summary();
     return 0;
   }
+  // ONE handler object serves every call of this process (different calculators, the same
+  // calculator again, different user inputs); each call is repeated on a fresh handler and
+  // once more on the shared one: all three must agree exactly (tree with attributes, or error text).
   OptionsHandler handler(defaults);
+  std::vector<std::string> history;
   std::string line;
+  auto split_commas = [](const std::string &t) {
+    std::vector<std::string> v;
+    size_t pos = 0;
+    while (pos <= t.size()) {
+      size_t c = t.find(',', pos);
+      std::string w = t.substr(pos, c == std::string::npos ? std::string::npos : c - pos);
+      if (!w.empty()) v.push_back(w);
+      if (c == std::string::npos) break;
+      pos = c + 1;
+    }
+    return v;
+  };
   while (std::getline(mf, line)) {
     if (line.empty()) continue;
     std::vector<std::string> f;
@@ -122,20 +139,54 @@ static int mode_merge(const vfh::Args &A) {
     }
     if (f.size() < 4) continue;
     const std::string &id = f[0], &kind = f[1], &calc = f[2], &file = f[3];
+    std::vector<std::string> extra = (kind == "A" && f.size() > 4) ? split_commas(f[4]) : std::vector<std::string>();
     vfh::set_case(id + " " + kind + " " + calc + " " + file);
+    // one execution: returns true and the tree, or false and the error text
+    auto exec = [&](const OptionsHandler &h, Property &res, std::string &err) {
+      try {
+        if (kind == "C") {
+          res = h.CalculatorOptions(calc);
+        } else {
+          Property user;
+          user.LoadFromXML(file);
+          res = h.ProcessUserInput(user, calc);
+        }
+        return true;
+      } catch (const std::exception &e) {
+        err = e.what();
+        return false;
+      }
+    };
     std::ostringstream o;
     o << "{\"t\":\"case\",\"id\":\"" << vfh::jesc(id) << "\",";
-    try {
-      Property res;
-      if (kind == "C") {
-        res = handler.CalculatorOptions(calc);
-        R.eval("driver_calcopts");
-      } else {
-        Property user;
-        user.LoadFromXML(file);
-        res = handler.ProcessUserInput(user, calc);
-        R.eval("driver_process");
+    Property res, res_fresh, res_again;
+    std::string err, err_fresh, err_again;
+    if (kind == "A") handler.setAdditionalChoices(extra);
+    bool ok = exec(handler, res, err);
+    OptionsHandler fresh(defaults);
+    if (kind == "A") fresh.setAdditionalChoices(extra);
+    bool ok_fresh = exec(fresh, res_fresh, err_fresh);
+    bool ok_again = exec(handler, res_again, err_again);
+    if (kind == "A") handler.setAdditionalChoices({});  // later calls must behave like a fresh handler again
+    R.eval(kind == "C" ? "driver_calcopts" : kind == "A" ? "driver_process_additional_choices" : "driver_process");
+    R.eval("reuse_handler_vs_fresh");
+    {
+      std::string a = ok ? dumps(res, true) : "ERR " + err, b = ok_fresh ? dumps(res_fresh, true) : "ERR " + err_fresh,
+                  c = ok_again ? dumps(res_again, true) : "ERR " + err_again;
+      if (a != b || a != c) {
+        std::string hist;
+        for (size_t k = history.size() > 6 ? history.size() - 6 : 0; k < history.size(); ++k) hist += history[k] + " | ";
+        R.violation("reuse/handler-differs-from-fresh",
+                    a != b ? "a handler that served earlier calls resolves differently from a fresh handler"
+                           : "the same call repeated on one handler gives a different result",
+                    J().s("id", id).s("kind", kind).s("calc", calc).s("user_file", file).s("manifest", A.str("manifest"))
+                        .s("defaults", defaults).s("earlier_calls_on_this_handler", hist)
+                        .s("shared_handler", a.substr(0, 3000)).s("fresh_handler", b.substr(0, 3000)).s("shared_handler_again", c.substr(0, 3000)));
       }
+      if (history.size() >= 1) R.nontrivial(vfh::hstr(vfh::hstr(91, id), a));
+    }
+    history.push_back(kind + ":" + calc + ":" + id);
+    if (ok) {
       std::string why;
       if (!index_consistent(res, why)) {
         R.violation("index/last-wins-inconsistent", why,
@@ -143,9 +194,9 @@ static int mode_merge(const vfh::Args &A) {
       }
       o << "\"ok\":true,\"tree\":";
       dump(o, res, kind == "C");
-    } catch (const std::exception &e) {
+    } else {
       R.counter("driver_errors");
-      o << "\"ok\":false,\"err\":\"" << vfh::jesc(e.what()) << "\"";
+      o << "\"ok\":false,\"err\":\"" << vfh::jesc(err) << "\"";
     }
     o << "}";
     std::cout << o.str() << "\n";
@@ -171,7 +222,8 @@ static const std::vector<std::string> &utf8_bits() {
 // content classes: 0 plain, 1 metacharacters
 static std::string gen_text(vfh::Rng &r, bool meta, bool inner_ws_tabs_newlines, int maxlen) {
   static const std::string plain = "abcdefghijklmnopqrstuvwxyzABCDEFGHIJKLMNOPQRSTUVWXYZ0123456789_.,:;/+-=()*#@!?%[]{}|~^$";
-  static const std::vector<std::string> metas = {"&", "<", ">", "\"", "'", "&amp;", "&lt;", "<b>", "a&b", "]]", "&#38;"};
+  static const std::vector<std::string> metas = {"&", "<", ">", "\"", "'", "&amp;", "&lt;", "<b>", "a&b", "]]", "&#38;",
+                                                 "< >", "&  &", "<\n>", "& \t <", "x < > y", "row1\nrow2\nrow3"};
   int len = (int)r.range(1, maxlen);
   std::string s;
   for (int i = 0; i < len; ++i) {
@@ -297,6 +349,110 @@ static std::string cmp(const Tree &t, const Property &p, const std::string &path
   return "";
 }
 
+
+// ---- API mutations mirrored on the Tree model (Property::add / add(Property) / deleteChildren / set /
+//      getOradd / value() / setAttribute / deleteAttribute)
+static void collect(Property &p, Tree &t, std::vector<std::pair<Property *, Tree *>> &out) {
+  out.push_back({&p, &t});
+  size_t i = 0;
+  for (Property &c : p) collect(c, t.kids[i++], out);
+}
+
+static std::string mutate(vfh::Rng &r, Property &ptop, Tree &top, bool meta, int nmut) {
+  std::string log;
+  for (int m = 0; m < nmut; ++m) {
+    std::vector<std::pair<Property *, Tree *>> nodes;
+    collect(ptop, top, nodes);  // pointers are re-collected after every mutation (vectors may reallocate)
+    auto pick = nodes[r.next() % nodes.size()];
+    Property &p = *pick.first;
+    Tree &t = *pick.second;
+    int op = (int)r.range(0, 7);
+    if (op == 0) {  // add(key, value)
+      Tree k;
+      k.name = (!t.kids.empty() && r.coin(0.4)) ? t.kids[r.next() % t.kids.size()].name : gen_name(r);
+      k.value = gen_text(r, meta && r.coin(0.5), true, 10);
+      p.add(k.name, k.value);
+      t.kids.push_back(k);
+      log += "add(" + k.name + ") ";
+    } else if (op == 1) {  // add(const Property &) with a copy of another subtree
+      auto src = nodes[r.next() % nodes.size()];
+      if (src.second == &top && nodes.size() > 1) src = nodes[1 + r.next() % (nodes.size() - 1)];
+      Property cp = *src.first;  // a copy, so that the source does not alias the destination
+      Tree ct = *src.second;
+      p.add(cp);
+      t.kids.push_back(ct);
+      log += "add(copy of " + ct.name + ") ";
+    } else if (op == 2) {  // deleteChildren(name == X)
+      if (t.kids.empty()) continue;
+      std::string nm = t.kids[r.next() % t.kids.size()].name;
+      p.deleteChildren([&](const Property &c) { return c.name() == nm; });
+      std::vector<Tree> keep;
+      for (auto &k : t.kids)
+        if (k.name != nm) keep.push_back(k);
+      t.kids = keep;
+      log += "deleteChildren(" + nm + ") ";
+    } else if (op == 3) {  // set(key, value): the last child of that name
+      if (t.kids.empty()) continue;
+      std::string nm = t.kids[r.next() % t.kids.size()].name;
+      std::string v = gen_text(r, meta && r.coin(0.5), true, 10);
+      p.set(nm, v);
+      for (size_t i = t.kids.size(); i-- > 0;)
+        if (t.kids[i].name == nm) { t.kids[i].value = v; break; }
+      log += "set(" + nm + ") ";
+    } else if (op == 4) {  // getOradd
+      std::string nm = (!t.kids.empty() && r.coin(0.5)) ? t.kids[r.next() % t.kids.size()].name : gen_name(r);
+      std::string v = gen_text(r, false, false, 6);
+      p.getOradd(nm).value() = v;
+      bool found = false;
+      for (size_t i = t.kids.size(); i-- > 0;)
+        if (t.kids[i].name == nm) { t.kids[i].value = v; found = true; break; }
+      if (!found) { Tree k; k.name = nm; k.value = v; t.kids.push_back(k); }
+      log += "getOradd(" + nm + ") ";
+    } else if (op == 5) {  // value()
+      if (!t.kids.empty()) continue;
+      t.value = gen_text(r, meta && r.coin(0.5), true, 12);
+      p.value() = t.value;
+      log += "value() ";
+    } else if (op == 6) {  // setAttribute
+      std::string an = (!t.attr.empty() && r.coin(0.5)) ? t.attr.begin()->first : gen_name(r);
+      std::string av = gen_text(r, meta && r.coin(0.5), false, 8);
+      p.setAttribute(an, av);
+      t.attr[an] = av;
+      log += "setAttribute(" + an + ") ";
+    } else {  // deleteAttribute
+      if (t.attr.empty()) continue;
+      std::string an = t.attr.begin()->first;
+      p.deleteAttribute(an);
+      t.attr.erase(an);
+      log += "deleteAttribute(" + an + ") ";
+    }
+  }
+  return log;
+}
+
+// exact comparison (values untrimmed) of a Property with the mirror
+static std::string cmp_exact(const Tree &t, const Property &p, const std::string &path) {
+  std::string here = path + "/" + t.name;
+  if (t.name != p.name()) return here + ": name '" + p.name() + "'";
+  if (t.value != p.value()) return here + ": value '" + p.value() + "' expected '" + t.value + "'";
+  std::map<std::string, std::string> got;
+  for (auto it = p.firstAttribute(); it != p.lastAttribute(); ++it) got[it->first] = it->second;
+  if (got != t.attr) return here + ": attributes differ";
+  if ((size_t)p.size() != t.kids.size()) return here + ": " + std::to_string(p.size()) + " children, expected " + std::to_string(t.kids.size());
+  size_t i = 0;
+  for (const Property &c : p) {
+    std::string d = cmp_exact(t.kids[i++], c, here);
+    if (!d.empty()) return d;
+  }
+  return "";
+}
+
+static std::string print_level0(PropertyIOManipulator &iom0, const Property &p) {
+  std::ostringstream os;
+  os << iom0 << p;
+  return os.str();
+}
+
 static int mode_roundtrip(const vfh::Args &A) {
   long seed = A.num("seed", 1), shard = A.num("shard", 0), n = A.num("n", 100);
   std::string tmp = A.str("tmp", ".");
@@ -306,13 +462,17 @@ static int mode_roundtrip(const vfh::Args &A) {
   PropertyIOManipulator iom0(PropertyIOManipulator::XML, 0, "");
   for (long ic = 0; ic < n; ++ic) {
     // families: plain 40 %, value metachar 20 %, attribute metachar 20 %, mixed content 10 %, attr whitespace 10 %
-    int fsel = (int)(ic % 10);
+    int fsel = (int)(ic % 14);
     GenOpt g;
     const char *fam = "rt_plain";
     if (fsel >= 4 && fsel < 6) { g.value_meta = true; fam = "rt_value_metachar"; }
     else if (fsel >= 6 && fsel < 8) { g.attr_meta = true; fam = "rt_attr_metachar"; }
     else if (fsel == 8) { g.mixed = true; fam = "rt_mixed_content"; }
     else if (fsel == 9) { g.attr_ws = true; fam = "rt_attr_tab_newline"; }
+    else if (fsel == 10) { fam = "rt_mutated"; }
+    else if (fsel == 11) { g.value_meta = true; g.attr_meta = true; fam = "rt_mutated"; }
+    else if (fsel == 12) { g.value_meta = (ic % 28 == 12); fam = "copy"; }
+    else if (fsel == 13) { g.value_meta = (ic % 28 == 13); fam = "rt_loaded_twice"; }
     Tree top;
     top.name = gen_name(rng);
     long nodes = 0;
@@ -321,6 +481,111 @@ static int mode_roundtrip(const vfh::Args &A) {
     Property root;
     Property &ptop = root.add(top.name, top.value);
     build(ptop, top);
+    std::string mutlog;
+    if (fsel == 10 || fsel == 11) {
+      mutlog = mutate(rng, ptop, top, g.value_meta, (int)rng.range(1, 8));
+      R.counter("rt_mutations_applied", (long long)std::count(mutlog.begin(), mutlog.end(), ' '));
+      std::string why;
+      if (!index_consistent(ptop, why))
+        R.violation("index/last-wins-inconsistent", "after API mutations: " + why,
+                    J().s("family", fam).i("seed", seed).i("shard", shard).i("case", ic).s("mutations", mutlog).raw("tree", tree_json(top)));
+      std::string d = cmp_exact(top, ptop, "");
+      if (!d.empty())
+        R.violation("mutate/tree-differs-from-model", "add/deleteChildren/set/getOradd leave a tree that differs from the expected one",
+                    J().s("family", fam).i("seed", seed).i("shard", shard).i("case", ic).s("mutations", mutlog).s("got", d).raw("tree", tree_json(top)));
+    }
+    if (fsel == 12) {
+      // copy constructor / assignment: equal and independent trees
+      R.eval("copy");
+      R.nontrivial(vfh::hstr(12, tree_json(top)));
+      Tree snap = top;  // state at the time of copying
+      Property c1(ptop);
+      Property c2;
+      c2.add("old", "content").add("x", "y");
+      c2 = ptop;
+      Property c3 = root;  // copy of the parent: the child inside must be a copy as well
+      auto w = [&](const std::string &got, const std::string &log) {
+        J j;
+        j.s("family", "copy").i("seed", seed).i("shard", shard).i("case", ic).s("got", got).s("mutations", log).raw("tree_when_copied", tree_json(snap));
+        return j;
+      };
+      std::string d = cmp_exact(snap, c1, "");
+      if (d.empty()) d = cmp_exact(snap, c2, "");
+      if (d.empty() && c3.size() == 1) d = cmp_exact(snap, *c3.begin(), "");
+      if (!d.empty()) R.violation("copy/not-equal", "a copied Property differs from its source", w(d, ""));
+      if (print_level0(iom0, c1) != print_level0(iom0, ptop)) R.violation("copy/not-equal", "a copied Property prints differently", w("printed text differs", ""));
+      std::string log1 = mutate(rng, ptop, top, g.value_meta, (int)rng.range(2, 8));  // change the original
+      d = cmp_exact(snap, c1, "");
+      if (d.empty()) d = cmp_exact(snap, c2, "");
+      if (d.empty() && c3.size() == 1) d = cmp_exact(snap, *c3.begin(), "");
+      if (!d.empty()) R.violation("copy/not-independent", "changing the source changed a copy", w(d, log1));
+      d = cmp_exact(top, ptop, "");
+      if (!d.empty()) R.violation("mutate/tree-differs-from-model", "mutations on the source", w(d, log1));
+      Tree t2 = snap;
+      std::string log2 = mutate(rng, c2, t2, g.value_meta, (int)rng.range(2, 8));  // change a copy
+      d = cmp_exact(top, ptop, "");
+      if (d.empty()) d = cmp_exact(snap, c1, "");
+      if (!d.empty()) R.violation("copy/not-independent", "changing a copy changed the source or another copy", w(d, log2));
+      d = cmp_exact(t2, c2, "");
+      if (!d.empty()) R.violation("mutate/tree-differs-from-model", "mutations on a copy", w(d, log2));
+      std::string why;
+      if (!index_consistent(c2, why) || !index_consistent(c1, why) || !index_consistent(ptop, why))
+        R.violation("index/last-wins-inconsistent", "after copying: " + why, w(why, log1 + "|| " + log2));
+      continue;
+    }
+    if (fsel == 13) {
+      // ONE Property object loaded from two different files one after the other. The unchanged code appends
+      // the second document as a second top node; a loader that replaces the content would be as good for the
+      // statement. Judged: each loaded document is the tree that was written (no leak between the two parses).
+      R.eval("rt_loaded_twice");
+      Tree top2;
+      top2.name = gen_name(rng);
+      long nodes2 = 0;
+      bool x1 = false, x2 = false, x3 = false;
+      gen_tree(rng, top2, 1, g, nodes2, x1, x2, x3);
+      Property root2;
+      Property &ptop2 = root2.add(top2.name, top2.value);
+      build(ptop2, top2);
+      std::string xa = print_level0(iom0, ptop), xb = print_level0(iom0, ptop2), xa2 = print_level0(iom0, ptop);
+      std::string file2 = file + ".b";
+      { std::ofstream f(file, std::ios::binary | std::ios::trunc); f << xa; }
+      { std::ofstream f(file2, std::ios::binary | std::ios::trunc); f << xb; }
+      R.nontrivial(vfh::hstr(13, xa + xb));
+      J w;
+      w.s("family", "rt_loaded_twice").i("seed", seed).i("shard", shard).i("case", ic).s("first_xml", xa).s("second_xml", xb);
+      if (xa != xa2) R.violation("reuse/print-twice-differs", "printing the same Property twice gives different text", w);
+      std::string d;
+      try {
+        Property q;
+        q.LoadFromXML(file);
+        q.LoadFromXML(file2);
+        if (q.size() == 2) {
+          auto it = q.begin();
+          d = cmp(top, *it, "");
+          ++it;
+          if (d.empty()) d = cmp(top2, *it, "");
+          R.counter("loaded_twice_second_document_appended");
+        } else if (q.size() == 1) {
+          d = cmp(top2, *q.begin(), "");
+          R.counter("loaded_twice_second_document_replaces");
+        } else d = "object holds " + std::to_string(q.size()) + " top nodes after two loads";
+        std::string why;
+        if (d.empty() && !index_consistent(q, why)) d = why;
+        // and the same file twice
+        Property q2;
+        q2.LoadFromXML(file);
+        q2.LoadFromXML(file);
+        for (const Property &c : q2) {
+          std::string dd = cmp(top, c, "");
+          if (d.empty() && !dd.empty()) d = "same file twice: " + dd;
+        }
+      } catch (const std::exception &e) {
+        d = std::string("exception: ") + e.what();
+      }
+      std::remove(file2.c_str());
+      if (!d.empty()) R.violation("reuse/property-loaded-twice", "a Property object that is loaded a second time does not hold the written trees", w.s("got", d));
+      continue;
+    }
     bool level0 = rng.coin(0.3);
     std::ostringstream os;
     if (level0) os << iom0 << ptop;  // print the named top node itself
@@ -338,7 +603,7 @@ static int mode_roundtrip(const vfh::Args &A) {
     auto wit = [&](const std::string &got) {
       J w;
       w.s("family", fam).i("seed", seed).i("shard", shard).i("case", ic).b("printed_named_top_at_level0", level0)
-          .raw("tree", tree_json(top)).s("printed_xml", xml).s("got", got);
+          .raw("tree", tree_json(top)).s("printed_xml", xml).s("got", got).s("api_mutations", mutlog);
       return w;
     };
     std::string diff, err;
